@@ -999,48 +999,57 @@ def parseFile (data : Bytes) : Out (List Element × Option ParseErr) :=
   | .panic => .stop .panic
   | .fuel => .stop .panic         -- the tokenizer model's own fuel (never: `Lex.lex_fuel_sufficient`)
 
+/-- entry of `Context::assemble`: fresh `locals` / `local_tasks`; if there were some, they become the new
+`globals` / `global_tasks` and the old globals are kept in the `PathFrame` (first two components) -/
+def enterFile (st : St) : Option Table × Option (List Task) × St :=
+  let (savedC, st1) : Option Table × St :=
+    match st.locals with
+    | none => (none, { st with locals := some [] })
+    | some c => (some st.globals, { st with locals := some [], globals := c })
+  match st1.localTasks with
+  | none => (savedC, none, { st1 with localTasks := some [] })
+  | some t => (savedC, some st1.globalTasks, { st1 with localTasks := some [], globalTasks := t })
+
+/-- the swaps of `PathFrame::into_inner` -/
+def leaveFile (savedC : Option Table) (savedT : Option (List Task)) (st4 : St) : St :=
+  let st5 : St :=
+    match savedC with
+    | none => { st4 with locals := none }
+    | some g => { st4 with locals := some st4.globals, globals := g }
+  match savedT with
+  | none => { st5 with localTasks := none }
+  | some g => { st5 with localTasks := some st5.globalTasks, globalTasks := g }
+
+/-- `do_assemble` followed by the local task loop of `assemble` -/
+def fileBody (fs : Bytes → Option Bytes) (enc : Encoder) (inc : Inc) (env1 : Env) (data : Bytes) (st2 : St) : Out (St × Res) :=
+  match parseFile data with
+  | .ok (els, perr) =>
+    match doAssemble fs enc inc env1 els perr st2 with
+    | .ok (st3, res) =>
+      if res = .err .fatal then .ok (st3, res)
+      else
+        match st3.localTasks with
+        | none => .stop .panic                            -- `local_tasks.replace(Vec::new()).unwrap()`
+        | some tasks => localLoop enc env1 rounds tasks { st3 with localTasks := some [] } res
+    | .stop r => .stop r
+  | .stop r => .stop r
+
 /-- `Context::assemble(data, path)` with `PathFrame::into_inner`; `fuel` bounds the include depth -/
 def assembleFile (fs : Bytes → Option Bytes) (enc : Encoder) : Nat → Inc
   | 0, _, _, _, _ => .stop .fuel
   | fuel+1, env, st, data, path =>
-    -- entry: push the path, swap in fresh locals / local tasks
+    -- push the path
     let env1 : Env := { paths := path :: env.paths, curName := path }
     let count := env1.paths.length
-    if count = 0 then .stop .panic else                       -- `NonZeroUsize::try_from(..).unwrap()`
-    let (savedC, st1) : Option Table × St :=
-      match st.locals with
-      | none => (none, { st with locals := some [] })
-      | some c => (some st.globals, { st with locals := some [], globals := c })
-    let (savedT, st2) : Option (List Task) × St :=
-      match st1.localTasks with
-      | none => (none, { st1 with localTasks := some [] })
-      | some t => (some st1.globalTasks, { st1 with localTasks := some [], globalTasks := t })
-    match parseFile data with
-    | .ok (els, perr) =>
-      match doAssemble fs enc (assembleFile fs enc fuel) env1 els perr st2 with
-      | .ok (st3, res) =>
-        let after : Out (St × Res) :=
-          if res = .err .fatal then .ok (st3, res)
-          else
-            match st3.localTasks with
-            | none => .stop .panic                            -- `local_tasks.replace(Vec::new()).unwrap()`
-            | some tasks => localLoop enc env1 rounds tasks { st3 with localTasks := some [] } res
-        match after with
-        | .ok (st4, res') =>
-          -- `into_inner`
-          if env1.paths.length ≠ count then .stop .panic else -- `assert_eq!(path_stack.len(), count)`
-          let st5 : St :=
-            match savedC with
-            | none => { st4 with locals := none }
-            | some g => { st4 with locals := some st4.globals, globals := g }
-          let st6 : St :=
-            match savedT with
-            | none => { st5 with localTasks := none }
-            | some g => { st5 with localTasks := some st5.globalTasks, globalTasks := g }
-          .ok (st6, res')
-        | .stop r => .stop r
+    if count = 0 then .stop .panic else                   -- `NonZeroUsize::try_from(..).unwrap()`
+    match enterFile st with
+    | (savedC, savedT, st2) =>
+      match fileBody fs enc (assembleFile fs enc fuel) env1 data st2 with
+      | .ok (st4, res') =>
+        -- `into_inner`
+        if env1.paths.length ≠ count then .stop .panic     -- `assert_eq!(path_stack.len(), count)`
+        else .ok (leaveFile savedC savedT st4, res')
       | .stop r => .stop r
-    | .stop r => .stop r
 
 /-! ## a whole project -/
 
